@@ -174,4 +174,25 @@ PROPS["C13"] = dict(
     assumptions=["AddNewLock callers pass sender = OneInternal(location) and checked addresses (state processor / worker)"],
 )
 
+PROPS["C01"] = dict(
+    lean_modules=["QuaiVerif.Props.C01"],
+    areas=[dict(name="utxo", n_quick=500, n_thorough=10000, seeds_thorough=3, n_search=2000)],
+    facts=["backends_track", "denominations"],
+    rule="a case is one block of 1-6 Qi transactions over a UTXO set of 5-30 entries, processed by the real core.ProcessQiTx on one batch in pending mode on "
+         "memorydb / leveldb / pebble, with real keys and Schnorr / MuSig2 signatures, each tx passed through the wire encoding first: mostly valid spends plus "
+         "same outpoint twice in a tx / in two txs, spending outputs created earlier in the block, non-owner and Quai-ledger keys, locked entries (lock = height-1, "
+         "height, height+1), bad denominations and merges, duplicate output addresses, non-zero output lock, conversion / wrapping / mixed data, foreign-zone outputs "
+         "with eligible and ineligible slices and exhausted ETX limits, fee below the floor, tiny gas limits, wrong chain id, altered-after-signing, 19/21-byte "
+         "addresses, both sides of the wrapping fork and the conversion hold intervals; the final UTXO scan (after batch.Write or after dropping a rejected block) is compared",
+    level_text="'An accepted transaction names pairwise distinct, present, unlocked outpoints owned by the presented keys (signature verified when checked), "
+               "outputs <= inputs, fee = difference', 'consumed outpoints are absent afterwards, nothing else changes', 'two transactions accepted on one batch "
+               "consume disjoint outpoints' and the value equation inputs = local outputs + sent + converted + fee are Lean theorems over the ProcessQiTx model "
+               "(structural induction over the input and output loops); the model is run against the real ProcessQiTx on three backends.",
+    level_note="Trusted: Lean kernel; harness; signature validity, the float-based intrinsic gas and the exchange-rate rewards are inputs of the model (computed by the "
+               "real functions). Backend independence rests on C17 (all batch types track pending writes - regenerated fact). PARTIAL: mempool validation "
+               "(ValidateQiTxInputs / ValidateQiTxOutputsAndSignature) and the worker's assembly-time variant are not yet driven; coinbase / conversion / trimming supply "
+               "events are C06/C13 territory. The value equation is proved from the wrapping fork on (before it a wrapped output also created a local UTXO).",
+    assumptions=["transaction hashes do not collide with the hashes of outpoints they spend", "batch view = committed store + pending writes (C17)"],
+)
+
 NOT_APPLICABLE = {}
